@@ -360,6 +360,17 @@ def unit_drop_helper(depth):
     return sp
 
 
+def unit_helper_all_defaults(kind):
+    """a plain helper whose parameters all have defaults, called WITH an argument: h1(<A>) where def h1(n=3) keeps G(n) / returns n"""
+    g = {"name": "G", "module": "main", "params": [["x", None]], "body": []}
+    if kind == "keeps":
+        h = {"name": "h1", "module": "main", "params": [["n", "3"]], "body": [{"k": "keep", "path": "/u/g", "fn": "G", "args": [{"param": "n"}]}]}
+    else:
+        h = {"name": "h1", "module": "main", "params": [["n", "3"]], "body": []}
+    return _scaffold([{"k": "call", "fn": "h1", "form": "plain", "args": [{"ep": "A"}]}], extra_funcs=[g, h],
+                     eps=[{"id": "A", "kind": "lit_arg", "n": 2, "values": ["10", "20"]}], sid=f"U/helper_all_defaults/{kind}", key=f"helper_all_defaults|{kind}")
+
+
 def unit_conditional_keep():
     """a keep written under 'if FLAG:' in the evaluated function: when FLAG is off the keep is analysed but not reached - its
     path must go on serving what it served"""
@@ -367,7 +378,7 @@ def unit_conditional_keep():
              {"name": "S", "module": "main", "params": [], "datafn": "/u/s", "body": []},
              {"name": "root", "module": "main", "params": [], "body": [{"k": "keep", "path": "/u/c", "fn": "G", "args": [], "ctx": "if_flag"}, {"k": "call", "fn": "S"}]},
              {"name": "root2", "module": "main", "params": [], "body": [{"k": "call", "fn": "S"}]}]
-    return {"id": "U/conditional_keep", "key": "conditional_keep", "modules": ["main"], "vars": [{"name": "FLAG", "module": "main", "values": ["True", "False"]}],
+    return {"id": "U/conditional_keep", "key": "conditional_keep", "conditional": True, "modules": ["main"], "vars": [{"name": "FLAG", "module": "main", "values": ["True", "False"]}],
             "funcs": funcs, "entries": {"eval_root": {"kind": "eval", "fn": "root"}, "eval_sub": {"kind": "eval", "fn": "root2"}},
             "eps": [{"id": "FLAG", "kind": "var_value", "n": 2}, {"id": "tag:G", "kind": "body_tag", "n": 2}]}
 
@@ -474,6 +485,7 @@ def unit_programs(level="quick"):
     out += [unit_same_path_twice(k) for k in ("lit", "same", "rt")]
     out += [unit_shadow(h) for h in SHADOWS]
     out += [unit_drop_helper(1), unit_drop_helper(2)]
+    out += [unit_helper_all_defaults("keeps"), unit_helper_all_defaults("returns"), unit_conditional_keep()]
     out += [unit_shadow(h) for h in ("lambda_assigned", "nested_def_param")]
     out += [unit_shadow_and_use(h, w) for h in ("lambda_assigned", "nested_def_param", "listcomp") for w in ("var", "fn")]
     out += [unit_class_attr(), unit_local_import(), unit_inherited()]
